@@ -48,7 +48,7 @@ PROPS = {
         title='recency order', level='proof', templates=['l2', 'iter'],
         k_quick=['q_sub_touch_ptr', 'q_sub_touch_ptr_only', 'q_sub_insert_set_head', 'q_sub_lru_mru_ptr', 'q_sub_realloc_grow',
                  'q_op_clone', 'q_op_retain', 'q_iter_link', 'q_it_iter'],
-        k_thorough=SUB_T + ['t_op_clone', 't_op_retain', 't_iter_link', 't_it_borrowing', 't_frame_debug'],
+        k_thorough=SUB_T + ['t_op_clone', 't_op_retain', 't_iter_link', 't_it_borrowing', 't_frame_debug', 't_framec_touch'],
         assumptions=[A_SUB, A_HB, A_DOUBLE, A_EQ, A_MODEL, A_KBOUND,
                      '&self operations cannot change the abstract table value in Verus; that they do not write is C19 (Kani, bounded)'],
         design='DESIGN.md §5 C05'),
